@@ -47,6 +47,14 @@ RANDOM_CMDS = [
     ["php", "3", "2", "-T", "xorcomp", "glrd", "6", "4", "2"], ["kclique", "3", "gnp", "6", ".5"],
     ["kcolor", "3", "complete", "4"], ["ramlb", "3", "3", "gnp", "6", ".5"], ["iso", "gnp", "5", ".5", "-e", "gnm", "5", "4"],
 ]
+# graph arguments with several random modifiers: the order in which they draw must not depend on the process
+MULTI_MOD = [
+    ["kcolor", "3", "gnp", "9", ".3", "plantclique", "4", "addedges", "5"],
+    ["domset", "2", "gnd", "8", "4", "addedges", "2", "splitedges", "3"],
+    ["php", "glrp", "5", "4", ".4", "plantbiclique", "2", "2", "addedges", "3"],
+    ["kclique", "3", "gnm", "8", "9", "splitedges", "2", "plantclique", "3", "addedges", "2"],
+]
+RANDOM_CMDS += MULTI_MOD
 
 
 class Recorder:
@@ -142,6 +150,31 @@ def trace_case(tool, cli, cmd, s):
     return Case("trace", r, impl, oracle, cls=tool + ":" + cmd[0], info={"tool": tool, "cmd": cmd, "seed": s})
 
 
+def shuffle_case(s):
+    """cnfshuffle --seed s: same output from two different hidden generator states"""
+    text = "p cnf 6 5\n1 -2 3 0\n-1 4 0\n2 5 -6 0\n-3 -4 0\n6 0\n"
+
+    def run_once():
+        old = sys.stdin
+        sys.stdin = io.StringIO(text)
+        try:
+            return fsig(quiet(lambda: cli_shuffle(["cnfshuffle", "--seed", str(s)], mode="formula")))
+        finally:
+            sys.stdin = old
+
+    def oracle():
+        random.seed(1)
+        a = run_once()
+        random.seed(2)
+        random.random()
+        b = run_once()
+        if a != b:
+            return {"tool": "cnfshuffle", "seed": s, "differs": [n for n, x, y in zip(("class", "nvars", "names", "clauses", "header"), a, b) if x != y]}
+        return None
+    return Case("shuffle_seed", req("phase", s if isinstance(s, int) else 1, 1), lambda: ok("1 0"), oracle, cls="cnfshuffle",
+                info={"seed": s})
+
+
 def lib_case(rng):
     from cnfgen import graphs as g
     fns = [("RandomKCNF", lambda s: fsig(cnfgen.RandomKCNF(3, 7, 9, seed=s))),
@@ -166,7 +199,7 @@ def lib_case(rng):
 
 
 def process_case(rng, tier):
-    cmds = RANDOM_CMDS if tier == "thorough" else rng.sample(RANDOM_CMDS, 10)
+    cmds = RANDOM_CMDS if tier == "thorough" else rng.sample(RANDOM_CMDS[:-len(MULTI_MOD)], 8) + MULTI_MOD
     seeds = [0, 1, 2 ** 31, -5] if tier == "thorough" else [0, rng.randint(1, 10 ** 6)]
     jobs = []
     for c in cmds:
@@ -174,6 +207,8 @@ def process_case(rng, tier):
             jobs.append((["cnfgen", "--seed", str(s)] + c, s))
     jobs.append((["pbgen", "--seed", "0", "php", "5", "4", "2"], 0))
     jobs.append((["cnfgen", "kcolor", "3", "complete", "4"], None))   # no randomness at all: still process independent
+    for sd in ("0", "7"):
+        jobs.append((["cnfshuffle", "--seed", sd], sd))
 
     def oracle():
         tmp = tempfile.mkdtemp(prefix="verif-c07-")
@@ -184,11 +219,13 @@ def process_case(rng, tier):
 
             def run(job):
                 argv, s = job
-                mod = {"cnfgen": "cnfgen.clitools.cnfgen", "pbgen": "cnfgen.clitools.pbgen"}[argv[0]]
+                mod = {"cnfgen": "cnfgen.clitools.cnfgen", "pbgen": "cnfgen.clitools.pbgen",
+                       "cnfshuffle": "cnfgen.clitools.cnfshuffle"}[argv[0]]
                 outs = []
-                for cwd, hs in ((d1, "0"), (d2, "4242"), (d1, "random")):
+                stdin_text = b"p cnf 6 5\n1 -2 3 0\n-1 4 0\n2 5 -6 0\n-3 -4 0\n6 0\n" if argv[0] == "cnfshuffle" else b""
+                for cwd, hs in ((d1, "0"), (d2, "4242"), (d1, "random"), (d2, "1")):
                     env = dict(os.environ, PYTHONPATH=common.REPO, PYTHONWARNINGS="ignore", PYTHONHASHSEED=hs)
-                    p = subprocess.run([sys.executable, "-m", mod] + argv[1:], cwd=cwd, stdin=subprocess.DEVNULL,
+                    p = subprocess.run([sys.executable, "-m", mod] + argv[1:], cwd=cwd, input=stdin_text,
                                        stdout=subprocess.PIPE, stderr=subprocess.PIPE, env=env, timeout=300)
                     outs.append((p.returncode, p.stdout))
                 return argv, outs
@@ -226,6 +263,8 @@ def cases(ctx):
                 out.append(trace_case("pbgen", cli_pbgen, cmd, s))
     for cmd in (["php", "6", "4", "2"], ["randkcnf", "3", "8", "10"], ["tseitin", "6"], ["subsetcard", "5"]):
         out.append(trace_case("pbgen", cli_pbgen, cmd, 0))
+    for s in (0, 1, -5, 2 ** 31, "0", "abc", rng.randint(2, 10 ** 6)):
+        out.append(shuffle_case(s))
     out.append(lib_case(rng))
     out.append(process_case(rng, tier))
     return out
